@@ -907,7 +907,21 @@ fn instance<S: 'static + Debug + Hash + PrimInt + Unsigned + Send + Sync>(
             return;
         }
     };
-    lines.push(grammar_json(&grm).to_string());
+    let mut gj = grammar_json(&grm);
+    {
+        // what the source says about %prec, straight from the AST: production indices of the
+        // AST and of the grammar coincide for the user's productions
+        let astv = cfgrammar::yacc::ast::ASTWithValidityInfo::new(kind, &ytext);
+        let ast = astv.ast();
+        let mut precname = vec![-1i64; usize::from(grm.prods_len())];
+        for (i, p) in ast.prods.iter().enumerate() {
+            if let Some(n) = &p.precedence {
+                precname[i] = grm.token_idx(n).map(|t| usize::from(t) as i64).unwrap_or(-2);
+            }
+        }
+        gj["precname"] = json!(precname);
+    }
+    lines.push(gj.to_string());
 
     // token costs
     let nt = usize::from(grm.tokens_len());
